@@ -528,7 +528,7 @@ pub open spec fn has_new_data(o: InterpreterOutcome) -> bool {
 }
 
 //@ lift air/src/runner.rs :: fn execute_air_impl
-//@ props C02 C14 C22
+//@ props C02 C14 C21 C22
 //@ ret res
 //@ expand farewell_if_fail crates/air-lib/utils/src/lib.rs
 //@ sig 1 "air: String" => "air: AirStr"
